@@ -90,6 +90,7 @@ function elementKinds() {
     ['component:model-member', () => el('k', [A.model('val', E(M.mem(id('a'), 'b')))])],
     ['component:mixed', () => el('k', [A.plain('p', ['a', X])])],
     // (`style` is a declared property of the child component; class and id are not)
+    ['component:dashed-digit-attr', () => el('k', [A.plain('item-2', X), A.plain('p', Y)])],
     ['component:style-property', () => el('k', [A.style(X)])],
     ['component:class+id', () => el('k', [A.cls(X), A.id(Y)])],
     ['attrs:several', () => v([A.plain('p', X), A.cls('c'), A.id('i'), A.dataHyphen('k', Y), A.event('bind', 'tap', 'f')])],
